@@ -40,6 +40,7 @@ type Step struct {
 	Fns    int    `json:"fns,omitempty"`   // cg mode: functions started per generation
 	Early  int    `json:"early,omitempty"` // cg mode: function k (1-based) returns on its own after EarlyMs
 	Wait   bool   `json:"wait,omitempty"`
+	Linger int    `json:"linger,omitempty"` // cg mode: every function takes this many ms to return after its context ended
 }
 
 type Script struct {
@@ -565,7 +566,7 @@ func (r *run) commit(m *member, msgs []kafka.Message) {
 }
 
 // cgLoop is the application of a bare ConsumerGroup: Next, start functions, Next again.
-func (r *run) cgLoop(m *member, fns, early, earlyMs int) {
+func (r *run) cgLoop(m *member, fns, early, earlyMs, lingerMs int) {
 	ctx, cancel := context.WithCancel(context.Background())
 	m.cancel = cancel
 	go func() {
@@ -597,6 +598,7 @@ func (r *run) cgLoop(m *member, fns, early, earlyMs int) {
 					if k == early {
 						select {
 						case <-fctx.Done():
+							time.Sleep(time.Duration(lingerMs) * time.Millisecond)
 							r.rec.Emit(trace.Event{"ev": "fn.exit", "m": m.id, "gen": g, "k": k, "why": "ctx"})
 						case <-time.After(time.Duration(earlyMs) * time.Millisecond):
 							r.rec.Emit(trace.Event{"ev": "fn.exit", "m": m.id, "gen": g, "k": k, "why": "own"})
@@ -604,6 +606,7 @@ func (r *run) cgLoop(m *member, fns, early, earlyMs int) {
 						return
 					}
 					<-fctx.Done()
+					time.Sleep(time.Duration(lingerMs) * time.Millisecond) // slow to wind down
 					r.rec.Emit(trace.Event{"ev": "fn.exit", "m": m.id, "gen": g, "k": k, "why": "ctx"})
 				})
 			}
@@ -690,7 +693,7 @@ func Run(sc *Script) []trace.Event {
 			r.members[st.M] = m
 			r.rec.Emit(trace.Event{"ev": "start", "m": st.M})
 			if sc.Mode == "cg" {
-				r.cgLoop(m, st.Fns, st.Early, st.Ms)
+				r.cgLoop(m, st.Fns, st.Early, st.Ms, st.Linger)
 			}
 		case "fetch":
 			if m := r.members[st.M]; m != nil && !m.closed {
